@@ -447,25 +447,6 @@ func typedEmbeddedPtr(repU *Report) {
 			repU.violate("C05", "field-not-matched-by-name", fmt.Sprintf("got %s, want %s", show(got), c.want), desc)
 		}
 	}
-	// the same through the JSON front end, against encoding/json (C20)
-	for _, doc := range []string{`{"X":5,"Z":2}`, `{"Z":2}`, `{"S":"a","X":1}`, `{"W":3,"X":7}`, `{"EmbPtrInner":{"X":4}}`, `{"X":1,"X":2}`} {
-		for _, mk := range []func() any{func() any { return &WithEmbPtr{} }, func() any { return &WithEmbPtrDeep{} }} {
-			a, b := mk(), mk()
-			e := guard(func() error { return copyBudget(sb.DecodeJson(strings.NewReader(doc), nil), sb.Unmarshal(a)) })
-			je := json.Unmarshal([]byte(doc), b)
-			repU.Evaluations++
-			repU.count("c20:promoted-through-pointer")
-			desc := fmt.Sprintf("json promoted through embedded pointer: target=%T doc=%s", a, doc)
-			switch {
-			case classOf(e) == "EPanic" || classOf(e) == "EDiverge":
-				repU.violate("C20", "unmarshal-panic", fmt.Sprintf("Unmarshal panicked: %v", e), desc)
-			case (e == nil) != (je == nil):
-				repU.violate("C20", "differs-from-encoding-json", fmt.Sprintf("sb: %v, encoding/json: %v", e, je), desc)
-			case e == nil && show(a) != show(b):
-				repU.violate("C20", "differs-from-encoding-json", fmt.Sprintf("sb gives %s, encoding/json gives %s", show(a), show(b)), desc)
-			}
-		}
-	}
 	// round trip of values with embedded pointers (C01): the embedded struct travels as a field named after its type
 	for _, v := range []WithEmbPtr{{}, {EmbPtrInner: &EmbPtrInner{X: 1, S: "s"}, Z: 3}, {Z: -1}} {
 		ts, e := marshalTokens(v, nil)
@@ -482,6 +463,29 @@ func typedEmbeddedPtr(repU *Report) {
 			repU.violate("C01", "roundtrip-error", fmt.Sprintf("%v", e), desc)
 		} else if show(back) != show(v) {
 			repU.violate("C01", "roundtrip-tokens", fmt.Sprintf("came back as %s", show(back)), desc)
+		}
+	}
+}
+
+// fields promoted through embedded pointers, through the JSON front end, against encoding/json (C20)
+func jsonEmbeddedPtr(repU *Report) {
+	show := func(v any) string { b, _ := json.Marshal(v); return string(b) }
+	for _, doc := range []string{`{"X":5,"Z":2}`, `{"Z":2}`, `{"S":"a","X":1}`, `{"W":3,"X":7}`, `{"X":1,"X":2}`} {
+		for _, mk := range []func() any{func() any { return &WithEmbPtr{} }, func() any { return &WithEmbPtrDeep{} }} {
+			a, b := mk(), mk()
+			e := guard(func() error { return copyBudget(sb.DecodeJson(strings.NewReader(doc), nil), sb.Unmarshal(a)) })
+			je := json.Unmarshal([]byte(doc), b)
+			repU.Evaluations++
+			repU.count("c20:promoted-through-pointer")
+			desc := fmt.Sprintf("json promoted through embedded pointer: target=%T doc=%s", a, doc)
+			switch {
+			case classOf(e) == "EPanic" || classOf(e) == "EDiverge":
+				repU.violate("C20", "unmarshal-panic", fmt.Sprintf("Unmarshal panicked: %v", e), desc)
+			case (e == nil) != (je == nil):
+				repU.violate("C20", "differs-from-encoding-json", fmt.Sprintf("sb: %v, encoding/json: %v", e, je), desc)
+			case e == nil && show(a) != show(b):
+				repU.violate("C20", "differs-from-encoding-json", fmt.Sprintf("sb gives %s, encoding/json gives %s", show(a), show(b)), desc)
+			}
 		}
 	}
 }
